@@ -95,3 +95,8 @@ pub proof fn lemma_idx_inj(i: int, j: int, a: int, b: int, cols: int)
     assert(i == a) by (nonlinear_arith)
         requires 0 <= j < cols, 0 <= b < cols, 0 <= i, 0 <= a, i * cols + j == a * cols + b;
 }
+
+// ---------------------------------------------------------------- assumed contracts of std functions (no vstd spec)
+pub assume_specification<T> [<[T]>::swap] (s: &mut [T], a: usize, b: usize)
+    requires a < old(s)@.len(), b < old(s)@.len(),
+    ensures final(s)@ == old(s)@.update(a as int, old(s)@[b as int]).update(b as int, old(s)@[a as int]);
